@@ -178,6 +178,24 @@ class _Proc:
             return None
 
 
+ENV_STATS = {}
+
+# POSIX TZ strings (no tzdata needed): the process time zone is part of the environment a library runs in
+TZ_POOL = ["CET-1CEST,M3.5.0,M10.5.0/3", "EST5EDT,M3.2.0,M11.1.0", "IST-5:30", "AEST-10AEDT,M10.1.0,M4.1.0/3", "NPT-5:45", "<+14>-14", "<-12>12"]
+
+
+def assign_time_zones(cases):
+    """One case in four runs in a non-UTC process time zone; the zone travels in the first op, so witnesses replay it."""
+    import zlib as _z
+    for c in cases:
+        ops = c.get("ops") or []
+        if not ops or "tz" in ops[0] or c.get("no_tz"):
+            continue
+        h = _z.crc32(str(c.get("id")).encode())
+        if h % 4 == 0:
+            ops[0]["tz"] = TZ_POOL[(h // 4) % len(TZ_POOL)]
+
+
 def _run_chunk(exe, cfg, cases, workdir, tag, stall_timeout, on_result):
     """Run one chunk of cases sequentially, restarting after deaths."""
     pending = list(cases)
@@ -262,6 +280,12 @@ def run_cases(cases, cfg="plain", jobs=None, stall_timeout=60, on_result=None, c
     exe = build.ensure(cfg)
     jobs = jobs or min(16, os.cpu_count() or 4)
     cases = list(cases)
+    assign_time_zones(cases)
+    for c in cases:
+        tz = (c.get("ops") or [{}])[0].get("tz")
+        if tz:
+            ENV_STATS["cases_run_in_a_non_utc_time_zone"] = ENV_STATS.get("cases_run_in_a_non_utc_time_zone", 0) + 1
+            ENV_STATS.setdefault("time_zones", {})[tz] = ENV_STATS.get("time_zones", {}).get(tz, 0) + 1
     results = []
     lock = threading.Lock()
 
